@@ -513,10 +513,40 @@ func c15e(c *Ctx) {
 	}
 }
 
-// appendSeq renders the sequence of values appended to variable obj in f
-// (normalised source text of each appended operand).
-func appendSeq(f *Func, obj types.Object, rename map[string]string) []string {
+// appendSeq renders the sequence of values appended to variable obj in f,
+// with roles instead of names: the receiver is W, a string parameter or the
+// Origin field of a parameter is ORIGIN.
+func appendSeq(f *Func, obj types.Object) []string {
 	info := f.Info()
+	recv := f.recvObj()
+	var render func(e ast.Expr) string
+	render = func(e ast.Expr) string {
+		switch x := ast.Unparen(e).(type) {
+		case *ast.Ident:
+			o := objOf(info, x)
+			if o != nil && o == recv {
+				return "W"
+			}
+			if o != nil && isParamOrRecv(f, o) && isStringType(o.Type()) {
+				return "ORIGIN"
+			}
+			return x.Name
+		case *ast.SelectorExpr:
+			if x.Sel.Name == "Origin" {
+				if o := objOf(info, x.X); o != nil && isParamOrRecv(f, o) {
+					return "ORIGIN"
+				}
+			}
+			return render(x.X) + "." + x.Sel.Name
+		case *ast.CallExpr:
+			var args []string
+			for _, a := range x.Args {
+				args = append(args, render(a))
+			}
+			return exprString(x.Fun) + "(" + strings.Join(args, ",") + ")"
+		}
+		return exprString(e)
+	}
 	var out []string
 	ast.Inspect(f.Body, func(n ast.Node) bool {
 		a, ok := n.(*ast.AssignStmt)
@@ -528,10 +558,7 @@ func appendSeq(f *Func, obj types.Object, rename map[string]string) []string {
 			return true
 		}
 		for _, arg := range call.Args[1:] {
-			s := exprString(arg)
-			for k, v := range rename {
-				s = strings.ReplaceAll(s, k, v)
-			}
+			s := render(arg)
 			if call.Ellipsis.IsValid() {
 				s += "..."
 			}
@@ -578,8 +605,8 @@ func c15f(c *Ctx) {
 		c.Unk("ticket associated data", "AEAD Seal/Open calls not found")
 		return
 	}
-	a := appendSeq(seal, sealAD, map[string]string{"pending.Origin": "ORIGIN"})
-	b := appendSeq(open, openAD, map[string]string{"origin": "ORIGIN"})
+	a := appendSeq(seal, sealAD)
+	b := appendSeq(open, openAD)
 	if strings.Join(a, " | ") == strings.Join(b, " | ") && len(a) > 0 {
 		c.add(Result{Instance: "ticket associated data", Verdict: Discharged, Evals: len(a), Sites: []string{seal.Pos(sealCall), open.Pos(openCall)}, Detail: "sealed and opened with ad = " + strings.Join(a, " | ")})
 	} else {
